@@ -42,17 +42,23 @@ def select(pid, tier):
 
 
 def is_subject(fn):
-    """Is this reachable function part of the code under verification (not the harness crate)?"""
+    """Is this reachable function part of the code under verification (mls-rs crates), as opposed to std /
+    Kani library instantiations that merely mention an mls-rs type, or the harness crate itself?"""
     import re
-    if fn.startswith("<*") or fn.startswith("(") or fn.startswith("&"):
-        return False
+    fn = re.sub(r"::<[^<>]*(<[^<>]*>[^<>]*)*>$", "", fn)  # drop trailing generic arguments
     if not re.search(r"::[a-z_][A-Za-z0-9_]*$", fn):
         return False  # a type, not a function
     if fn.startswith("mls_rs"):
         return True
-    if fn.startswith("<") and "mls_rs" in fn:
-        return "kani::" not in fn
-    return False
+    m = re.match(r"^<(.+?)(?: as (.+))?>::[a-z_][A-Za-z0-9_]*$", fn)
+    if not m:
+        return False
+    ty = m.group(1).lstrip("&").replace("mut ", "").strip()
+    tr = (m.group(2) or "").strip()
+    if ty.startswith("mls_rs"):
+        return True
+    std_ty = re.match(r"^(u8|u16|u32|u64|u128|usize|bool|str|\[|alloc::|core::|mls_rs_codec::Vec)", ty) is not None
+    return std_ty and tr.startswith("mls_rs")
 
 
 OUTSIDE = {}
